@@ -94,6 +94,30 @@ RewriteVerdict(obs) ==
   ELSE IF ~SameValue(obs.before, obs.after) THEN "rewrite-changed-values"
   ELSE "ok"
 
+(***************************************************************************)
+(* Rechunk by specification (C14).  c: shape, prev (chunks of x), spec      *)
+(* (per axis [k: "int", v] | "full" | "keep" | "auto"), balance (0/1), out   *)
+(* (chunks of x.rechunk(spec)), norm (what normalize_chunks returns for     *)
+(* the same spec, shape, dtype and previous chunks).                        *)
+(***************************************************************************)
+Uniform(n, v) == IF n = 0 THEN <<0>> ELSE [j \in 1..CeilDiv(n, v) |-> IF j * v <= n THEN v ELSE n - (j - 1) * v]
+MinSeq(q) == FoldSeq(LAMBDA x, acc : Min2(x, acc), q[1], q)
+Spread(q) == MaxSeq(q) - MinSeq(q)
+RechunkSpecVerdict(c) ==
+  LET r == Len(c.shape)
+      target(a) == CASE c.spec[a].k = "int" -> Uniform(c.shape[a], c.spec[a].v)
+                     [] c.spec[a].k = "full" -> <<c.shape[a]>>
+                     [] c.spec[a].k = "keep" -> c.prev[a]
+                     [] OTHER -> c.norm[a]
+  IN IF Len(c.out) # r THEN "rechunk-result-has-wrong-rank"
+     ELSE IF \E a \in 1..r : ~IsLooseChunking(c.out[a], c.shape[a]) THEN "rechunk-result-is-not-a-chunking-of-the-shape"
+     ELSE IF \E a \in 1..r : c.shape[a] > 0 /\ (\E j \in 1..Len(c.out[a]) : c.out[a][j] = 0) /\ c.spec[a].k # "keep"
+          THEN "rechunk-result-has-a-zero-size-block"
+     ELSE IF c.balance = 0 /\ c.out # c.norm THEN "rechunk-chunks-differ-from-normalized-spec"
+     ELSE IF c.balance = 0 /\ \E a \in 1..r : c.out[a] # target(a) THEN "rechunk-chunks-differ-from-requested"
+     ELSE IF c.balance = 1 /\ \E a \in 1..r : Len(c.out[a]) > Len(target(a)) THEN "balanced-rechunk-has-more-blocks-than-requested"
+     ELSE "ok"
+
 \* fused task provenance: for every output block, the set of (external input, block) pairs the fused
 \* graph reads equals the set the unfused lowered graph reads
 FusionVerdict(obs) ==
